@@ -128,6 +128,7 @@ def check(ctx):
     ctx.design("Alloc.tla", "Alloc_N3.cfg")
     if not ctx.quick:
         ctx.design("Alloc.tla", "Alloc_N4.cfg")
+        ctx.proof("AllocProof")          # every N: out inside the pool, no block held twice, failure iff full (design only)
     if prop == "C04":
         ctx.design("AllocConc.tla", "AllocConc_lock.cfg")
         if not ctx.quick:
@@ -140,11 +141,13 @@ def check(ctx):
         runs.append(("seq", ["-mode", "seq", "-domain", dom, "-maxn", 3, "-suffix", 2, "-seed", ctx.seed]))
         runs.append(("seq4", ["-mode", "seq", "-domain", dom, "-maxn", 4, "-suffix", 1, "-seed", ctx.seed + 7]))
         runs.append(("walk", ["-mode", "walk", "-domain", dom, "-walks", 28, "-seed", ctx.seed]))
+        runs.append(("dense", ["-mode", "dense", "-domain", dom, "-walks", 8, "-seed", ctx.seed]))
     else:
         runs.append(("seq42", ["-mode", "seq", "-domain", dom, "-maxn", 4, "-suffix", 2, "-seed", ctx.seed]))
         runs.append(("seq33", ["-mode", "seq", "-domain", dom, "-maxn", 3, "-suffix", 3, "-seed", ctx.seed + 1]))
         runs.append(("seq24", ["-mode", "seq", "-domain", dom, "-maxn", 2, "-suffix", 4, "-seed", ctx.seed + 2]))
         runs.append(("walk", ["-mode", "walk", "-domain", dom, "-walks", 280, "-seed", ctx.seed]))
+        runs.append(("dense", ["-mode", "dense", "-domain", dom, "-walks", 64, "-seed", ctx.seed]))
     paths = []
     for name, args in runs:
         t = os.path.join(wd, name + ".ndjson")
@@ -191,7 +194,7 @@ def check(ctx):
     st["binding_selftest"] = selftest(ctx, paths[0]) if not ctx.violations else {"skipped": "violations reported"}
     ctx.trusted += ["harness/alloc.go: net.IPNet -> block index / alignment / containment with math/big",
                     "TLC evaluation of AllocTrace guards"]
-    ctx.assumptions += ["pools of at most 1000 blocks (a 2^32-address IPv4 range is outside the bounds used)",
+    ctx.assumptions += ["histories are exhaustive on pools of 1..4 blocks and random on pools of up to 1000 blocks; pools of 8192 .. 2^20 blocks are driven densely at their low end and around one far cluster (mode dense); a 2^32-address IPv4 range is outside the bounds used",
                         "C04 C05 C07: only outstanding blocks are freed (the quantifier of those properties); C06: any well-formed block / sub-prefix / outside prefix"]
     nontriv = {"C04": st["hint_taken"] + st["free_ok"], "C05": st["exhausted_scenarios"], "C06": st["free_ok"] + st["outside_free"],
                "C07": st["hint_free_honoured"]}[prop]
